@@ -318,6 +318,37 @@ func ruleKA(c *Checker) {
 			c.decide(resumeAllowed[ci], "KA-2", "pongTicker.Resume|"+fnName(fn), instrPos(ci), "on a ping leg", "the pong timer is armed outside a ping leg: it can expire although no ping is outstanding (keepalive off must never close)")
 		}
 	}
+	// ... and a running pong timer is restarted nowhere else either: a Reset outside the arming
+	// sequence (Reset immediately followed by Resume on a ping leg) postpones the expiry, so a silent
+	// peer is detected late or never
+	for _, fn := range w.Funcs {
+		if w.pkgShort(fn) != targetGBN {
+			continue
+		}
+		for _, m := range []string{"Reset", "ResetWithInterval"} {
+			for _, ci := range callsOnField(fn, fPong, m) {
+				okk := false
+				for r := range resumeAllowed {
+					// Reset ... Resume without another wait in between
+					if resumeAllowed[r] && r.Parent() == fn && instrDominates(ci, r) {
+						straight := true
+						for _, b2 := range fn.Blocks {
+							for _, in := range b2.Instrs {
+								if sel, isSel := in.(*ssa.Select); isSel && sel.Blocking && instrDominates(ci, sel) && instrDominates(sel, r) {
+									straight = false
+								}
+							}
+						}
+						if straight {
+							okk = true
+						}
+					}
+				}
+				c.decide(okk, "KA-2", "pongTicker."+m+"|"+fnName(fn), instrPos(ci), "part of the arming sequence of a ping leg (followed by Resume)",
+					"the pong timer is restarted outside the arming sequence of a ping leg: its expiry is pushed out (e.g. on every resend tick), so a silent peer is detected late or never")
+			}
+		}
+	}
 	// start arms ping only
 	c.decide(len(callsOnField(start, fPing, "Resume")) == 1 && len(callsOnField(start, fPong, "Resume")) == 0, "KA-2", "start|ping armed, pong not", start.Pos(),
 		"start resumes the ping ticker only", "start does not arm exactly the ping ticker")
